@@ -78,6 +78,44 @@ def main():
                     got, _ = observe.run(co, "eval", env() if env else None, limit=50.0)
                 rs.append([label, observe.compare(ref, got)])
             out.append([key, "ok", rs])
+    elif doc["op"] == "normalise":
+        # jobs = [[key, text]] -> [[key, ast.unparse(ast.parse(text)) or null]]   (needs 3.9+)
+        import ast
+
+        for key, text in doc["jobs"]:
+            try:
+                out.append([key, ast.unparse(ast.parse(text, mode="eval"))])
+            except Exception:
+                out.append([key, None])
+    elif doc["op"] == "parsecmp":
+        # jobs = [[key, [witness texts], candidate]] -> [[key, "skip" | null | reason]]
+        import ast
+        import warnings
+
+        from vf import exprspace as X
+
+        warnings.simplefilter("ignore")
+        for key, witnesses, cand in doc["jobs"]:
+            want = None
+            for w in witnesses:
+                if w is None:
+                    continue
+                try:
+                    want = X.ndump(ast.parse(w, mode="eval").body)
+                    break
+                except (SyntaxError, ValueError):
+                    continue
+                except RecursionError:
+                    continue
+            if want is None:
+                out.append([key, "skip"])
+                continue
+            try:
+                got = X.ndump(ast.parse(cand, mode="eval").body)
+            except (SyntaxError, ValueError) as e:
+                out.append([key, "text of the oneliner unparser does not parse on this runtime: %s" % str(e)[:80]])
+                continue
+            out.append([key, None if got == want else "text of the oneliner unparser parses to a different tree on this runtime"])
     json.dump(out, sys.stdout)
 
 
